@@ -340,11 +340,29 @@ class _G:
 
     @staticmethod
     def sub_scope(scope):
-        return {"idx": list(scope["idx"]), "mem": list(scope["mem"]), "mem_src": scope["mem_src"]}
+        return {"idx": list(scope["idx"]), "mem": list(scope["mem"]), "mem_src": scope["mem_src"], "cell": scope.get("cell")}
+
+    def cell_access(self, scope, ind):
+        """memref.store / memref.load on a small scratch buffer defined before all loops, at a constant position: a load may only
+        be moved if no store to that cell can run between its old and its new place."""
+        r = self.r
+        pos = self.cst(r.randrange(0, 4))
+        if r.random() < 0.5:
+            v = self.pick_idx(scope)
+            self.skel.append("S")
+            self.features.add("store")
+            return [f"{ind}memref.store {v.name}, %cell[{pos}] : memref<4xindex>"]
+        l = self.fresh("l")
+        scope["idx"].append(Idx(l, False, False))
+        self.skel.append("L")
+        self.features.add("load")
+        return [f"{ind}{l} = memref.load %cell[{pos}] : memref<4xindex>"] + self.marker(scope, ind)
 
     def item(self, scope, ind, depth):
         r = self.r
         k = r.random()
+        if scope.get("cell") and k < 0.18:
+            return self.cell_access(scope, ind)
         if k < 0.34:
             return self.marker(scope, ind)
         if k < 0.52:
@@ -477,6 +495,12 @@ def gen_program(rng) -> LoopsProgram:
     scope = {"idx": [], "mem": [a, b], "mem_src": [a, b]}
     body = []
     ind = "  "
+    if rng.random() < 0.4:
+        # scratch cells, fully initialised before any loop
+        scope["cell"] = True
+        body.append("  %cell = memref.alloc() : memref<4xindex>")
+        for k in range(4):
+            body.append(f"  memref.store {g.cst(10 + k)}, %cell[{g.cst(k)}] : memref<4xindex>")
     n_top = rng.choice([1, 1, 1, 2])
     if rng.random() < 0.3:
         body += g.items(scope, ind, 0, 1, allow_loop=False)
